@@ -492,6 +492,9 @@ def numeric_strings(d, rng):
             if fr is not None:
                 out.append(repr(float(fr)))
                 out.append(repr(float(fr) + 0.5))
+        for b in corpus.float_specials(is64):
+            if not is_nan_bits(b, is64):
+                out.append(float_shortest_text(b, is64))
         for _ in range(6):
             out.append("%d.%d" % (rng.range(-200, 200), rng.below(1000)))
     for _ in range(4):
@@ -1186,6 +1189,14 @@ def c11(tier, rng, rep, only=None):
                 ops.append(("from", v))
             if "FromStr" in info.traits and d.inner == "String":
                 ops.append(("from_str_s", v))
+            if "FromStr" in info.traits and d.family() == "int":
+                a_ = val_sexp(("s", v[3:-1]))
+                ops.append(("from_str", a_))
+                firsts[(d.id, a_)] = "ok " + v
+            if "FromStr" in info.traits and d.family() == "float" and not is_nan_bits(int(v[3:-1]), FLOAT_TYPES[d.inner]):
+                a_ = val_sexp(("s", float_shortest_text(int(v[3:-1]), FLOAT_TYPES[d.inner])))
+                ops.append(("from_str", a_))
+                firsts[(d.id, a_)] = "ok " + v
         g2.add_ops(d, ops)
     g2.run_impl()
     g2.run_model()
@@ -1195,8 +1206,14 @@ def c11(tier, rng, rep, only=None):
             continue
         n2 += 1
         kinds[c.op] = kinds.get(c.op, 0) + 1
-        if c.impl != "ok " + c.arg:
-            rep.violation("value %s obtained from %s is not reproduced by %s: %s" % (c.arg, c.decl.id, c.op, c.impl), case_payload(c, g2))
+        want = "ok " + c.arg
+        if c.op == "from_str":
+            # the argument is the decimal text of the value: find the value among the first-round results
+            want = firsts.get((c.decl.id, c.arg))
+            if want is None:
+                continue
+        if c.impl != want:
+            rep.violation("value %s obtained from %s is not reproduced by %s: %s" % (want[3:], c.decl.id, c.op, c.impl), case_payload(c, g2))
         elif c.model != c.impl:
             rep.violation("model and implementation differ on re-entry %s(%s): %s vs %s" % (c.op, c.arg, c.impl, c.model), case_payload(c, g2), no_input=True)
     # values obtained through Deserialize (serde corpus): they too must re-enter unchanged
@@ -1232,6 +1249,42 @@ def c11(tier, rng, rep, only=None):
             kinds["deserialized->" + c.op] = kinds.get("deserialized->" + c.op, 0) + 1
             if c.impl != "ok " + c.arg:
                 rep.violation("value %s obtained from %s by Deserialize is not reproduced by %s: %s" % (c.arg, c.decl.id, c.op, c.impl), case_payload(c, g4))
+    # values obtained through Arbitrary (Arbitrary corpus): they too must re-enter unchanged
+    n4 = 0
+    if only is None:
+        adecls = (corpus.gen_arb_ints(rng.fork("arbint"), tier) + corpus.gen_arb_floats(rng.fork("arbfloat"), tier) + corpus.gen_arb_strs(rng.fork("arbstr"), tier))
+        g5 = flows.GuardRun("arb" if tier == "quick" else "arb_t", adecls)
+        for d in adecls:
+            if c11_eligible(d) and c09_class(d) is None:
+                ins = corpus.arb_byte_inputs(d, rng.fork(d.id), tier)
+                g5.add_ops(d, [("arb", "(b%s)" % "".join(" %d" % b_ for b_ in bs)) for bs in ins[:: (1 if d.family() == "str" else 3)]])
+        g5.build()
+        g5.run_impl()
+        g6 = flows.GuardRun(g5.ws.name, g5.decls)
+        g6.ws = g5.ws
+        g6.live = g5.live
+        for d in g5.decls:
+            if d.id not in g5.live:
+                continue
+            seen = set()
+            ops = []
+            for c in g5.by_decl.get(d.id, []):
+                if c.impl and c.impl.startswith("ok ") and c.impl not in seen:
+                    seen.add(c.impl)
+                    ops.append((guardcorpus.ctor_op(d), c.impl[3:]))
+            g6.add_ops(d, ops)
+        g6.run_impl()
+        for c in g6.cases:
+            if c.impl is None:
+                continue
+            n4 += 1
+            kinds["arbitrary->" + c.op] = kinds.get("arbitrary->" + c.op, 0) + 1
+            impl = c.impl
+            if c.decl.family() == "float" and is_nan_bits(int(c.arg[3:-1]), FLOAT_TYPES[c.decl.inner]):
+                continue
+            if impl != "ok " + c.arg:
+                rep.violation("value %s obtained from %s by Arbitrary is not reproduced by %s: %s" % (c.arg, c.decl.id, c.op, impl), case_payload(c, g6))
+    n3 += n4
     # third/fourth rounds are identical calls on identical values (the constructors are pure): the chain of length 4
     # is covered by determinism, which the second round re-checks on every distinct value
     rep.coverage.update({"evaluations": n1 + n2 + n3, "distinct_nontrivial": n2 + n3,
@@ -1250,6 +1303,25 @@ def float_text(bits, is64):
     if is64:
         return repr(struct.unpack("<d", struct.pack("<Q", bits))[0])
     x = struct.unpack("<f", struct.pack("<I", bits))[0]
+    return repr(x)
+
+
+def float_shortest_text(bits, is64):
+    """the shortest decimal text that parses back to this value AT ITS OWN WIDTH (what Rust's
+    Display prints, up to notation): for f32 this is shorter than the text of the widened f64"""
+    import struct
+    if is64:
+        return float_text(bits, True)
+    x = struct.unpack("<f", struct.pack("<I", bits))[0]
+    if x != x or x in (float("inf"), float("-inf")):
+        return repr(x)
+    from fractions import Fraction
+    from syntax import frac_to_bits
+    for p in range(1, 10):
+        t = "%.*g" % (p, x)
+        # exact single rounding of the decimal text (Python's float() would round twice)
+        if frac_to_bits(abs(Fraction(t)), False) == (bits & 0x7fffffff):
+            return t
     return repr(x)
 
 
@@ -1302,6 +1374,12 @@ def c04(tier, rng, rep, only=None):
                    [0xc4, 2, 0x61, 0x42], [0xc4, 0], [0xc4, 1, 0x20], [0xc4, 3, 0x20, 0x61, 0x20], [0xc4, 2, 0xc3, 0x9f], [0xc4, 2, 0xff, 0xfe],
                    [0xc5, 0, 2, 0x61, 0x62], [0xc6, 0, 0, 0, 1, 0x78], [0xc4, 5, 0x61, 0x62, 0x63, 0x64, 0x65]):
             ops.append(("de_mp", "(b%s)" % "".join(" %d" % b for b in bs)))
+        # serde's value deserializers on a few inner values
+        if d.family() in ("int", "float", "str"):
+            vs_ = guardcorpus.inputs_for(d, r, tier)
+            for v in vs_[:: max(1, len(vs_) // 10)][:10]:
+                ops.append(("de_self", val_sexp(v)))
+                ops.append(("de_seq1", val_sexp(v)))
         # nested positions
         some = [x for x in docs if x.strip()][:: max(1, len(docs) // 12)][:12]
         for i in range(0, len(some) - 1, 2):
@@ -1335,6 +1413,14 @@ def c04(tier, rng, rep, only=None):
             continue
         fmt = c.op[3:]
         g_ok = got.startswith("ok ")
+        if fmt in ("self", "seq1"):
+            # serde's value deserializers do not know newtype structs: refusing is fine, but a value
+            # that comes out must be the constructor's value for what the inner type reads there
+            cls[(c.decl.family() + "/" + fmt, "ok" if g_ok else "refused")] = cls.get((c.decl.family() + "/" + fmt, "ok" if g_ok else "refused"), 0) + 1
+            if g_ok and got != exp:
+                rep.violation("%s(%s) produced %s without the guards: the inner value deserializes to %s and the constructor gives %s"
+                              % (c.op, c.arg, got, c.oracle, exp), case_payload(c, g, {"inner": c.oracle, "constructor": exp}))
+            continue
         kind = "ok" if g_ok else ("inner_fail" if exp == "de_err" else "ctor_reject")
         cls[(c.decl.family() + "/" + fmt, kind)] = cls.get((c.decl.family() + "/" + fmt, kind), 0) + 1
         if g_ok:
